@@ -1,7 +1,7 @@
 """C12 — escaping tables and scanner ordering (table and ordering clauses only)."""
 import tables
 from astq import find_nodes
-from mirq import callee, origin_mentions_call
+from mirq import callee, origin_mentions_call, strip_refs
 
 EXPLANATION = (
     "Decides the table and ordering clauses: try_lfs_escape and try_lfs_unescape are mutually inverse bijections over LFS's ten "
@@ -89,68 +89,111 @@ def calls_with(body, defpat, argpat):
     return out
 
 
+ADAPTORS = r"Peekable<I>::next_if$|Peekable.*::next_if$|Option::<T>::(filter|and_then|is_some_and|map_or|map)$"
+
+
+def lookahead_tests(ctx, body, defpat):
+    """sites where `body` applies the predicate/translation `defpat` to the look-ahead character, with the edges taken when it
+    succeeds / fails: list of dict(site, true_t, false_t, consumes).  Two spellings are recognised:
+      direct   `if let Some(d) = chars.peek() { if d.pred() {..} }`          (bool branch / Option match on the call's result)
+      closure  `chars.next_if(|d| d.pred())`, `chars.peek().and_then(|j| j.translate())`, `.filter(..)`, `.is_some_and(..)`
+               (the predicate is called inside a closure of `body` on the closure's parameter; the branch is the match on the
+               adaptor's result).  `consumes` is True when the adaptor itself advances the iterator on success (next_if)."""
+    out = []
+    for bb, t in calls_with(body, defpat, r"Peekable.*::peek$"):
+        br = body.bool_branch(bb)
+        if br is None:
+            sw = body.discr_switch_of_call(bb)
+            if sw is not None:
+                br = (sw[0], sw[1].get(0, sw[2]), sw[1].get(1, sw[2]))
+        if br is not None:
+            out.append({"site": bb, "line": t["line"], "false_t": br[1], "true_t": br[2], "consumes": False})
+        else:
+            out.append({"site": bb, "line": t["line"], "false_t": None, "true_t": None, "consumes": False})
+    base = body.name.split("#")[0]
+    for cn in sorted(k for k in ctx.mir.bodies if k.startswith(base + "::{closure#") and not k.endswith("#promoted")):
+        cb = ctx.mir.body(cn)
+        inner = [(cbb, ct) for cbb, ct in cb.calls_to(defpat) if strip_refs(cb.origin(ct["args"][0]))[0] == "arg"]
+        if not inner:
+            continue
+        # where is this closure handed to an adaptor over the look-ahead?
+        for bb, t in body.calls_to(ADAPTORS):
+            args = [body.origin(a) for a in t["args"]]
+            if not any(a[0] == "agg" and a[1] == ("closure", cn) for a in args):
+                continue
+            d = callee(t)[0] or ""
+            if not (d.endswith("next_if") or origin_mentions_call(args[0], r"Peekable.*::peek$")):
+                continue
+            br = None
+            if d.endswith("is_some_and") or d.endswith("map_or"):
+                br = body.bool_branch(bb)
+            else:
+                sw = body.discr_switch_of_call(bb)
+                if sw is not None:
+                    br = (sw[0], sw[1].get(0, sw[2]), sw[1].get(1, sw[2]))
+            out.append({"site": bb, "line": t["line"], "false_t": br[1] if br else None, "true_t": br[2] if br else None, "consumes": d.endswith("next_if")})
+    return out
+
+
 def order_rules(ctx, rep):
+    NEXT = r"Iterator>::next$|Iterator::next$"
     b = ctx.mir.body("insim_core::string::colours::strip")
     if b is None:
         rep.fail("R12.3", "strip:found", "colours::strip not found")
     else:
         rep.fn(b.name)
-        A = calls_with(b, r"ControlCharacter::is_lfs_control_char$", r"Peekable.*::peek$")
-        B = calls_with(b, r"Colour::is_lfs_colour$", r"Peekable.*::peek$")
+        A = lookahead_tests(ctx, b, r"ControlCharacter::is_lfs_control_char$")
+        B = lookahead_tests(ctx, b, r"Colour::is_lfs_colour$")
         ok = len(A) == 1 and len(B) == 1
         rep.check("R12.3", "strip:anchors", ok, "strip must test the peeked character once for a caret and once for a colour (found %d/%d)" % (len(A), len(B)), b.loc())
         if ok:
-            br = b.bool_branch(A[0][0])
-            okb = br is not None
-            if okb:
-                _sw, f_t, t_t = br
-                taken = b.reach_within_iteration(t_t)
-                rep.check("R12.3", "strip:escaped-caret-first", B[0][0] not in taken,
+            a, c = A[0], B[0]
+            if a["true_t"] is not None:
+                taken = b.reach_within_iteration(a["true_t"])
+                rep.check("R12.3", "strip:escaped-caret-first", c["site"] not in taken,
                           "after the escaped-caret (^^) branch is taken the colour test is still reachable in the same iteration: ^^1 would lose its digit",
-                          b.loc(A[0][1]["line"]), sample={"caret_test_bb": A[0][0], "colour_test_bb": B[0][0], "taken_region": sorted(taken)[:12]})
-                after = b.reach_within_iteration(B[0][1]["target"])
-                rep.check("R12.3", "strip:order", A[0][0] not in after, "the colour test precedes the escaped-caret test", b.loc(B[0][1]["line"]))
-                # the taken branch keeps both characters: two pushes, one extra next()
+                          b.loc(a["line"]), sample={"caret_test_bb": a["site"], "colour_test_bb": c["site"], "taken_region": sorted(taken)[:12]})
+                after = b.reach_within_iteration(b.blocks[c["site"]]["term"]["target"])
+                rep.check("R12.3", "strip:order", a["site"] not in after, "the colour test precedes the escaped-caret test", b.loc(c["line"]))
+                # the taken branch keeps both characters: two pushes, one consumed look-ahead
                 pushes = [bb for bb, t in b.calls_to(r"String::push$") if bb in taken]
-                nexts = [bb for bb, t in b.calls_to(r"Iterator>::next$|Iterator::next$") if bb in taken]
-                rep.check("R12.3", "strip:escaped-caret-kept", len(pushes) == 2 and len(nexts) == 1,
-                          "the ^^ branch must push both carets and consume the second (pushes %d, next %d)" % (len(pushes), len(nexts)), b.loc(A[0][1]["line"]))
-                # the colour branch pushes nothing
-                brc = b.bool_branch(B[0][0])
-                if brc:
-                    takenc = b.reach_within_iteration(brc[2])
+                nexts = [bb for bb, t in b.calls_to(NEXT) if bb in taken]
+                rep.check("R12.3", "strip:escaped-caret-kept", len(pushes) == 2 and len(nexts) + (1 if a["consumes"] else 0) == 1,
+                          "the ^^ branch must push both carets and consume the second (pushes %d, consumed %d)" % (len(pushes), len(nexts) + (1 if a["consumes"] else 0)), b.loc(a["line"]))
+                if c["true_t"] is not None:
+                    takenc = b.reach_within_iteration(c["true_t"])
                     pc = [bb for bb, t in b.calls_to(r"String::push$") if bb in takenc]
-                    nc = [bb for bb, t in b.calls_to(r"Iterator>::next$|Iterator::next$") if bb in takenc]
-                    rep.check("R12.3", "strip:colour-dropped", len(pc) == 0 and len(nc) == 1,
-                              "the colour branch must drop the caret and consume the digit (pushes %d, next %d)" % (len(pc), len(nc)), b.loc(B[0][1]["line"]))
+                    nc = [bb for bb, t in b.calls_to(NEXT) if bb in takenc]
+                    rep.check("R12.3", "strip:colour-dropped", len(pc) == 0 and len(nc) + (1 if c["consumes"] else 0) == 1,
+                              "the colour branch must drop the caret and consume the digit (pushes %d, consumed %d)" % (len(pc), len(nc) + (1 if c["consumes"] else 0)), b.loc(c["line"]))
                 else:
-                    rep.fail("R12.3", "strip:colour-branch", "colour test result is not branched on", b.loc(B[0][1]["line"]))
+                    rep.fail("R12.3", "strip:colour-branch", "colour test result is not branched on", b.loc(c["line"]))
             else:
-                rep.fail("R12.3", "strip:caret-branch", "caret test result is not branched on", b.loc(A[0][1]["line"]))
+                rep.fail("R12.3", "strip:caret-branch", "caret test result is not branched on", b.loc(a["line"]))
     e = ctx.mir.body("insim_core::string::escaping::escape")
     if e is None:
         rep.fail("R12.3", "escape:found", "escaping::escape not found")
     else:
         rep.fn(e.name)
-        C = calls_with(e, r"Colour::is_lfs_colour$", r"Peekable.*::peek$")
-        E = [(bb, t) for bb, t in e.calls_to(r"Escape::try_lfs_escape$") if bb in e.reach_within_iteration(min(e.loop_heads())) ] if e.loop_heads() else []
+        C = lookahead_tests(ctx, e, r"Colour::is_lfs_colour$")
+        E = [(bb, t) for bb, t in e.calls_to(r"Escape::try_lfs_escape$") if bb in e.reach_within_iteration(min(e.loop_heads()))] if e.loop_heads() else []
         ok = len(C) == 1 and len(E) == 1
         rep.check("R12.3", "escape:anchors", ok, "escape must test for a colour once and escape once inside the loop (found %d/%d)" % (len(C), len(E)), e.loc())
         if ok:
-            br = e.bool_branch(C[0][0])
-            if br:
-                taken = e.reach_within_iteration(br[2])
-                rep.check("R12.3", "escape:colour-first", E[0][0] not in taken, "a colour code falls through to escaping (its caret would be doubled)", e.loc(C[0][1]["line"]),
-                          sample={"colour_test_bb": C[0][0], "escape_bb": E[0][0]})
+            c = C[0]
+            if c["true_t"] is not None:
+                taken = e.reach_within_iteration(c["true_t"])
+                rep.check("R12.3", "escape:colour-first", E[0][0] not in taken, "a colour code falls through to escaping (its caret would be doubled)", e.loc(c["line"]),
+                          sample={"colour_test_bb": c["site"], "escape_bb": E[0][0]})
                 after = e.reach_within_iteration(E[0][1]["target"])
-                rep.check("R12.3", "escape:order", C[0][0] not in after, "escaping is attempted before the colour pass-through", e.loc(E[0][1]["line"]))
+                rep.check("R12.3", "escape:order", c["site"] not in after, "escaping is attempted before the colour pass-through", e.loc(E[0][1]["line"]))
             else:
-                rep.fail("R12.3", "escape:colour-branch", "colour test result is not branched on", e.loc(C[0][1]["line"]))
+                rep.fail("R12.3", "escape:colour-branch", "colour test result is not branched on", e.loc(c["line"]))
     u = ctx.mir.body("insim_core::string::escaping::unescape")
     if u is None:
         rep.fail("R12.3", "unescape:found", "escaping::unescape not found")
     else:
         rep.fn(u.name)
-        U = calls_with(u, r"Escape::try_lfs_unescape$", r"Peekable.*::peek$")
+        U = lookahead_tests(ctx, u, r"Escape::try_lfs_unescape$")
         rep.check("R12.3", "unescape:lookahead", len(U) == 1, "unescape must translate the peeked character after a caret (found %d sites)" % len(U), u.loc())
     rep.floor("R12.3", 8)
